@@ -156,6 +156,67 @@ fn c09_oracle(ctx: &Ctx) -> Vec<Violation> {
     out
 }
 
+/// C05 ("generic arguments and generic parameters are preserved in order"): the helper struct of a struct variant is
+/// instantiated with the enum's own parameters, so the argument list at every site that names it must be the helper's
+/// parameter list, in its order.
+pub fn helper_instantiation(ctx: &Ctx) -> Vec<Violation> {
+    let mut out = vec![];
+    if ctx.lang == Lang::TypeScript {
+        return out;
+    }
+    for (ii, it) in ctx.items.iter().enumerate() {
+        if !it.annotated || it.serialized_as.is_some() {
+            continue;
+        }
+        let Kind::Enum { variants, .. } = &it.kind else { continue };
+        let Some(d) = ctx.decl_of(ii) else { continue };
+        let live = live_variants(variants);
+        if live.len() != d.cases.len() {
+            continue;
+        }
+        for ((vi, v), case) in live.iter().zip(d.cases.iter()) {
+            if !matches!(v.payload, Payload::Struct { .. }) {
+                continue;
+            }
+            let Some(h) = ctx.helper_decl(ii, *vi) else { continue };
+            let mut arg_sites: Vec<(String, Vec<String>)> = vec![];
+            if let Some(OTy::Name { args, .. }) = &case.payload {
+                arg_sites.push(("payload".into(), args.iter().map(|a| a.show()).collect()));
+            }
+            for (role, t) in &d.refs {
+                let applies = match role.split_once(':') {
+                    Some(("decode-type", c)) => c == case.ident,
+                    Some(("accessor", a)) => norm(a) == norm(&v.name),
+                    Some(("constructor", c)) => norm(c).ends_with(&norm(&format!("Variant{}", v.name))),
+                    _ => false,
+                };
+                if applies {
+                    let t = match t {
+                        OTy::Ptr(x) => x.as_ref(),
+                        x => x,
+                    };
+                    if let OTy::Name { args, .. } = t {
+                        arg_sites.push((role.split(':').next().unwrap_or("").to_string(), args.iter().map(|a| a.show()).collect()));
+                    }
+                }
+            }
+            for (site, args) in arg_sites {
+                if ctx.counting && !h.generics.is_empty() {
+                    ctx.run.label(&format!("c05/helper-generic-args/{}/{}", ctx.l(), h.generics.len().min(2)));
+                }
+                if args != h.generics {
+                    let why = if args.len() != h.generics.len() { "arity" } else { "order" };
+                    out.push(Violation::new(
+                        format!("{}/variant-helper/{}/generic-args-differ/{}", ctx.l(), site, why),
+                        format!("{}: struct variant `{}::{}`: helper `{}` is declared with parameters {:?} but referenced ({}) with arguments {:?}", ctx.lang.name(), it.name, v.name, h.name, h.generics, site, args),
+                    ));
+                }
+            }
+        }
+    }
+    out
+}
+
 fn c09_gen() -> GenCfg {
     let mut g = GenCfg::base();
     g.min_items = 2;
